@@ -28,5 +28,14 @@ SubCommands ==
     {SentCase(6, [CpReqMin EXCEPT !.subCommand = n], "pin-subcommand", F) : n \in PinSubcommands}
     \cup {SentCase(10, [CmReqMin EXCEPT !.subCommand = n], "cm-subcommand", F) : n \in CmSubcommands}
 
-MC_Cases == TopSubsets \cup NestedSubsets \cup FullRequests \cup SubCommands
+\* the platform's order of preference among the algorithms is part of the value
+ParamOrders ==
+    {SentCase(1, [McReqMin EXCEPT !.pubKeyCredParams = l], "param-order", F) :
+        l \in {<<ParamOf(ALG_EdDSA), ParamOf(ALG_ES256)>>, <<ParamOf(ALG_ES256), ParamOf(ALG_EdDSA)>>,
+                <<ParamOf(-257), ParamOf(ALG_EdDSA), ParamOf(-37), ParamOf(ALG_ES256), ParamOf(ALG_ES256)>>,
+                <<ParamOf(ALG_EdDSA), ParamOf(ALG_EdDSA), ParamOf(ALG_ES256)>>, <<ParamOf(-257)>>}}
+    \cup {SentCase(c, [ReqFull(c, F) EXCEPT !.attestationFormatsPreference = <<l>>], "format-order", F) :
+        c \in {1, 2}, l \in {<<N_none, N_packed>>, <<N_packed, N_none>>, <<N_tpm, N_none, N_tpm, N_packed, N_none>>}}
+
+MC_Cases == TopSubsets \cup NestedSubsets \cup FullRequests \cup SubCommands \cup ParamOrders
 =============================================================================
